@@ -11,7 +11,7 @@ namespace Mainchain
 inductive FineStep (s s' : State) : Prop where
   | leaf (wall : Nat) (m : Msg) (r : Resp) (hl : m.isLeaf = true) (hg : GrantsOK s) (hsig : m.SignedOK)
       (h : execMsg wall s m = .ok (s', r))
-  | ante (tx : Tx) (h : AnteEffect s tx s')
+  | ante (tx : Tx) (hu : tx.required.all isUserAddr = true) (hg : GrantsOK s) (h : AnteEffect s tx s')
   | time (t : Int) (ht : s.time ≤ t) (hs : s' = { s with time := t })
   | complete (id : Nat) (x : EB) (h : EB.completeOne { ent := s.ent, bank := s.bank } s.nowSec isBlocked id = .ok x)
       (hs : s' = { s with ent := x.ent, bank := x.bank })
@@ -36,53 +36,76 @@ theorem FineStep.leafStep {s s' : State} {wall : Nat} {m : Msg} {r : Resp} (hl :
 theorem setReg_grants (s : State) (k : RegKind) (r : RegState) : (s.setReg k r).grants = s.grants := by
   cases k <;> rfl
 
-/-- only authz messages touch the grant table -/
+theorem setReg_allowances (s : State) (k : RegKind) (r : RegState) : (s.setReg k r).allowances = s.allowances := by
+  cases k <;> rfl
+
+/-- only authz / feegrant messages touch the grant and allowance tables -/
 theorem leaf_grants_eq (wall : Nat) (s s' : State) (m : Msg) (r : Resp)
     (h : execMsg wall s m = .ok (s', r)) :
     (∃ g e k, m = .authzGrant g e k) ∨ (∃ g e k, m = .authzRevoke g e k) ∨ (∃ g ms, m = .authzExec g ms) ∨
-    s'.grants = s.grants := by
+    (∃ g e, m = .feegrantGrant g e) ∨ (s'.grants = s.grants ∧ s'.allowances = s.allowances) := by
   cases m with
   | authzGrant g e k => exact Or.inl ⟨g, e, k, rfl⟩
   | authzRevoke g e k => exact Or.inr (Or.inl ⟨g, e, k, rfl⟩)
   | authzExec g ms => exact Or.inr (Or.inr (Or.inl ⟨g, ms, rfl⟩))
+  | feegrantGrant g e => exact Or.inr (Or.inr (Or.inr (Or.inl ⟨g, e, rfl⟩)))
   | _ =>
-    right; right; right
+    right; right; right; right
     simp only [execMsg, bind_eq_ok, pure_eq_ok, Prod.mk.injEq] at h
     first
-      | (obtain ⟨_, _, rfl, _⟩ := h; first | rfl | exact setReg_grants _ _ _)
-      | (obtain ⟨_, _, _, _, rfl, _⟩ := h; first | rfl | exact setReg_grants _ _ _)
-      | (obtain ⟨_, _, _, _, _, _, rfl, _⟩ := h; first | rfl | exact setReg_grants _ _ _)
-      | (obtain ⟨_, _, _, _, _, _, _, _, rfl, _⟩ := h; first | rfl | exact setReg_grants _ _ _)
+      | (obtain ⟨_, _, rfl, _⟩ := h; first | exact ⟨rfl, rfl⟩ | exact ⟨setReg_grants _ _ _, setReg_allowances _ _ _⟩)
+      | (obtain ⟨_, _, _, _, rfl, _⟩ := h; first | exact ⟨rfl, rfl⟩ | exact ⟨setReg_grants _ _ _, setReg_allowances _ _ _⟩)
+      | (obtain ⟨_, _, _, _, _, _, rfl, _⟩ := h; first | exact ⟨rfl, rfl⟩ | exact ⟨setReg_grants _ _ _, setReg_allowances _ _ _⟩)
+      | (obtain ⟨_, _, _, _, _, _, _, _, rfl, _⟩ := h; first | exact ⟨rfl, rfl⟩ | exact ⟨setReg_grants _ _ _, setReg_allowances _ _ _⟩)
 
-/-- a leaf step keeps the grants invariant: new grants are given by the (authorised) signer -/
+/-- a leaf step keeps the authorisation invariant: new grants and allowances are given by the
+(authorised) signer -/
 theorem leaf_grantsOK (wall : Nat) (s s' : State) (m : Msg) (r : Resp) (hl : m.isLeaf = true) (hg : GrantsOK s)
     (hsig : m.SignedOK) (h : execMsg wall s m = .ok (s', r)) : GrantsOK s' := by
-  rcases leaf_grants_eq wall s s' m r h with ⟨g, e, kind, rfl⟩ | ⟨g, e, kind, rfl⟩ | ⟨g, ms, rfl⟩ | heq
+  rcases leaf_grants_eq wall s s' m r h with ⟨g, e, kind, rfl⟩ | ⟨g, e, kind, rfl⟩ | ⟨g, ms, rfl⟩ | ⟨g, e, rfl⟩ | heq
   · simp only [execMsg, bind_eq_ok, pure_eq_ok, Prod.mk.injEq, decodeM_eq_ok] at h
     obtain ⟨ga, hga, ea, _, rfl, _⟩ := h
     obtain ⟨a, ha, hpa⟩ := hsig
     simp only [Msg.signer, signerTok_authzGrant, Option.bind_some] at ha
     rw [hga] at ha; cases ha
+    refine ⟨?_, hg.2⟩
     intro g' e' k' hmem
     simp only at hmem
     split at hmem
-    · exact hg g' e' k' hmem
+    · exact hg.1 g' e' k' hmem
     · simp only [List.mem_append, List.mem_singleton, Prod.mk.injEq] at hmem
       rcases hmem with hmem | ⟨rfl, _, _⟩
-      · exact hg g' e' k' hmem
+      · exact hg.1 g' e' k' hmem
       · exact hpa
   · simp only [execMsg, bind_eq_ok, pure_eq_ok, Prod.mk.injEq] at h
     obtain ⟨ga, _, ea, _, _, _, rfl, _⟩ := h
+    refine ⟨?_, hg.2⟩
     intro g' e' k' hmem
-    exact hg g' e' k' (List.mem_filter.mp hmem).1
+    exact hg.1 g' e' k' (List.mem_filter.mp hmem).1
   · simp [Msg.isLeaf] at hl
-  · intro g e k hm; rw [heq] at hm; exact hg g e k hm
+  · simp only [execMsg, bind_eq_ok, pure_eq_ok, Prod.mk.injEq, decodeM_eq_ok] at h
+    obtain ⟨ga, hga, ea, _, _, _, rfl, _⟩ := h
+    obtain ⟨a, ha, hpa⟩ := hsig
+    simp only [Msg.signer, signerTok_feegrantGrant, Option.bind_some] at ha
+    rw [hga] at ha; cases ha
+    refine ⟨hg.1, ?_⟩
+    intro g' e' hmem
+    simp only [List.mem_append, List.mem_singleton, Prod.mk.injEq] at hmem
+    rcases hmem with hmem | ⟨rfl, _⟩
+    · exact hg.2 g' e' hmem
+    · exact hpa
+  · exact ⟨fun g e k hm => hg.1 g e k (heq.1 ▸ hm), fun g e hm => hg.2 g e (heq.2 ▸ hm)⟩
 
-theorem anteEffect_grants (s s' : State) (tx : Tx) (h : AnteEffect s tx s') : s'.grants = s.grants := by
+theorem anteEffect_grants (s s' : State) (tx : Tx) (h : AnteEffect s tx s') :
+    s'.grants = s.grants ∧ s'.allowances = s.allowances := by
   cases h with
-  | none hs => subst hs; rfl
-  | unlock _ _ _ _ _ _ hs => subst hs; rfl
-  | deduct _ _ _ hs => subst hs; rfl
+  | none hs => subst hs; exact ⟨rfl, rfl⟩
+  | unlock _ _ _ _ _ _ hs => subst hs; exact ⟨rfl, rfl⟩
+  | deduct _ _ _ _ _ _ hs => subst hs; exact ⟨rfl, rfl⟩
+
+theorem grantsOK_of_eq {s s' : State} (hg : GrantsOK s) (h : s'.grants = s.grants ∧ s'.allowances = s.allowances) :
+    GrantsOK s' :=
+  ⟨fun g e k hm => hg.1 g e k (h.1 ▸ hm), fun g e hm => hg.2 g e (h.2 ▸ hm)⟩
 
 /-- if the ante chain of the repository's decorator order succeeds, every required signer is an
 address somebody holds a key for (`SetPubKey` is in the chain: `decide`d on the regenerated order) -/
@@ -159,15 +182,18 @@ theorem deliverTx_fine (wall : Nat) (s : State) (tx : Tx) (hg : GrantsOK s) :
       · exact ⟨.refl _, hg⟩
       · rename_i s1 h1
         -- the ante part
-        have hante : FinePath s s1 ∧ s1.grants = s.grants :=
-          ante_rel (fun a b => FinePath a b ∧ b.grants = a.grants) (fun a => ⟨.refl a, rfl⟩)
-            (fun a b c h1 h2 => ⟨h1.1.trans h2.1, h2.2.trans h1.2⟩) tx
-            (fun a b he => ⟨.single (.ante tx he), anteEffect_grants a b tx he⟩) _ _ s s1 h1
-        have hg1 : GrantsOK s1 := by intro g e k hm; rw [hante.2] at hm; exact hg g e k hm
+        have husers := ante_signers_user .deliver s s1 tx h1
+        have hante : (GrantsOK s → FinePath s s1) ∧ (s1.grants = s.grants ∧ s1.allowances = s.allowances) :=
+          ante_rel (fun a b => (GrantsOK a → FinePath a b) ∧ (b.grants = a.grants ∧ b.allowances = a.allowances))
+            (fun a => ⟨fun _ => .refl a, rfl, rfl⟩)
+            (fun a b c h1 h2 => ⟨fun hga => (h1.1 hga).trans (h2.1 (grantsOK_of_eq hga h1.2)),
+              h2.2.1.trans h1.2.1, h2.2.2.trans h1.2.2⟩) tx
+            (fun a b he => ⟨fun hga => .single (.ante tx husers hga he), anteEffect_grants a b tx he⟩) _ _ s s1 h1
+        have hante : FinePath s s1 ∧ (s1.grants = s.grants ∧ s1.allowances = s.allowances) := ⟨hante.1 hg, hante.2⟩
+        have hg1 : GrantsOK s1 := grantsOK_of_eq hg hante.2
         split
         · exact ⟨hante.1, hg1⟩
         · rename_i s2 rs h2
-          have husers := ante_signers_user .deliver s s1 tx h1
           have hsigned : ∀ m ∈ tx.msgs, m.SignedOK := by
             intro m hm
             obtain ⟨a, ha⟩ := validateBasic_signer s m (validateBasicList_each s tx.msgs hvb m hm)
@@ -188,11 +214,14 @@ theorem checkTx_fine (s : State) (tx : Tx) (hg : GrantsOK s) :
     · split
       · exact ⟨.refl _, hg⟩
       · rename_i s1 h1
-        have hante : FinePath s s1 ∧ s1.grants = s.grants :=
-          ante_rel (fun a b => FinePath a b ∧ b.grants = a.grants) (fun a => ⟨.refl a, rfl⟩)
-            (fun a b c h1 h2 => ⟨h1.1.trans h2.1, h2.2.trans h1.2⟩) tx
-            (fun a b he => ⟨.single (.ante tx he), anteEffect_grants a b tx he⟩) _ _ s s1 h1
-        exact ⟨hante.1, by intro g e k hm; rw [hante.2] at hm; exact hg g e k hm⟩
+        have husers := ante_signers_user .check s s1 tx h1
+        have hante : (GrantsOK s → FinePath s s1) ∧ (s1.grants = s.grants ∧ s1.allowances = s.allowances) :=
+          ante_rel (fun a b => (GrantsOK a → FinePath a b) ∧ (b.grants = a.grants ∧ b.allowances = a.allowances))
+            (fun a => ⟨fun _ => .refl a, rfl, rfl⟩)
+            (fun a b c h1 h2 => ⟨fun hga => (h1.1 hga).trans (h2.1 (grantsOK_of_eq hga h1.2)),
+              h2.2.1.trans h1.2.1, h2.2.2.trans h1.2.2⟩) tx
+            (fun a b he => ⟨fun hga => .single (.ante tx husers hga he), anteEffect_grants a b tx he⟩) _ _ s s1 h1
+        exact ⟨hante.1 hg, grantsOK_of_eq hg hante.2⟩
 
 theorem govExec_fine (wall : Nat) (s : State) (m : Msg) (hg : GrantsOK s) :
     FinePath s (govExec wall s m).1 ∧ GrantsOK (govExec wall s m).1 := by
@@ -243,23 +272,23 @@ theorem beginBlock_fine (steps : List String) (s s' : State) (h : beginBlock ste
   foldlM_rel FinePath .refl (fun _ _ _ => FinePath.trans) beginStep steps (fun a n b hb => beginStep_fine a b n hb) s s' h
 
 theorem beginBlock_grants (steps : List String) (s s' : State) (h : beginBlock steps s = .ok s') :
-    s'.grants = s.grants := by
-  refine foldlM_rel (fun (a b : State) => b.grants = a.grants) (fun _ => rfl) (fun a b c (h1 : b.grants = a.grants) (h2 : c.grants = b.grants) => h2.trans h1) beginStep steps ?_ s s' h
+    s'.grants = s.grants ∧ s'.allowances = s.allowances := by
+  refine foldlM_rel (fun (a b : State) => b.grants = a.grants ∧ b.allowances = a.allowances) (fun _ => ⟨rfl, rfl⟩)
+    (fun a b c (h1 : b.grants = a.grants ∧ b.allowances = a.allowances) (h2 : c.grants = b.grants ∧ c.allowances = b.allowances) =>
+      ⟨h2.1.trans h1.1, h2.2.trans h1.2⟩) beginStep steps ?_ s s' h
   intro a n b hb
   unfold beginStep at hb
   split at hb
-  · simp only [bind_eq_ok, pure_eq_ok] at hb; obtain ⟨_, _, rfl⟩ := hb; rfl
-  · simp only [bind_eq_ok, pure_eq_ok] at hb; obtain ⟨_, _, rfl⟩ := hb; rfl
+  · simp only [bind_eq_ok, pure_eq_ok] at hb; obtain ⟨_, _, rfl⟩ := hb; exact ⟨rfl, rfl⟩
+  · simp only [bind_eq_ok, pure_eq_ok] at hb; obtain ⟨_, _, rfl⟩ := hb; exact ⟨rfl, rfl⟩
   · cases hb
 
 /-- every coarse step of the application is a path of elementary steps (and keeps `GrantsOK`) -/
 theorem chainStep_fine (s s' : State) (h : ChainStep s s') (hg : GrantsOK s) : FinePath s s' ∧ GrantsOK s' := by
   cases h with
   | begin t ht h =>
-    refine ⟨.cons _ _ _ (.time t ht rfl) (beginBlock_fine _ _ _ h), ?_⟩
-    intro g e k hm
-    rw [beginBlock_grants _ _ _ h] at hm
-    exact hg g e k hm
+    exact ⟨.cons _ _ _ (.time t ht rfl) (beginBlock_fine _ _ _ h),
+      grantsOK_of_eq (s := { s with time := t }) hg (beginBlock_grants _ _ _ h)⟩
   | deliver wall tx hs => subst hs; exact deliverTx_fine wall s tx hg
   | check tx hs => subst hs; exact checkTx_fine s tx hg
   | gov wall m hs => subst hs; exact govExec_fine wall s m hg
@@ -289,7 +318,7 @@ theorem fineReach_path (g : GenCfg) (a b : State) (hp : FinePath a b) :
 theorem reachable_fine (g : GenCfg) (s : State) (h : Reachable g s) :
     FineReach g (fun _ => True) s ∧ GrantsOK s := by
   induction h with
-  | init => exact ⟨.init, by intro g e k hm; simp [initState] at hm⟩
+  | init => exact ⟨.init, by constructor <;> simp [initState]⟩
   | step s s' _ hs ih =>
     obtain ⟨hp, hg'⟩ := chainStep_fine s s' hs ih.2
     exact ⟨fineReach_path g s s' hp ih.1, hg'⟩
